@@ -98,5 +98,5 @@ Definition to_multiparts (ci : bool) (ds : list str) (vals : list raw) (cv : str
   let ncv := length (tokenize ds cv) in
   match fold_left (mp_step ci ds cv ncv) vals (Some []) with
   | None => None
-  | Some m => Some (map snd m, mp_nospace [] ds)
+  | Some m => Some (isort_by (fun a b => str_ltb (value a) (value b)) (map snd m), mp_nospace [] ds)     (* sort.Sort(ByValue): map order does not leak *)
   end.
